@@ -20,7 +20,7 @@ pub open spec fn rb_startup_post(s: Seq<u8>, res: Result<&[u8]>) -> bool {
 /// what get_module(id) answers for bundle bytes s
 pub open spec fn rb_module_post(s: Seq<u8>, id: usize, res: Result<Option<RamBundleModule>>) -> bool {
     //  an id past the table is an error
-    &&& (id >= rb_count(s) ==> (res matches Err(Error::InvalidRamBundleIndex)))
+    &&& (id >= rb_count(s) ==> res is Err)
     //  a table cut off before this entry is an error
     &&& (id < rb_count(s) && 12 + 8 * id + 8 > s.len() ==> res is Err)
     //  otherwise: nothing for an empty slot; an error for a zero length with an offset; the module bytes without the
@@ -28,7 +28,7 @@ pub open spec fn rb_module_post(s: Seq<u8>, id: usize, res: Result<Option<RamBun
     &&& (id < rb_count(s) && 12 + 8 * id + 8 <= s.len() ==> ({
             let o = rb_entry_off(s, id as int); let l = rb_entry_len(s, id as int); let at = rb_startup_off(s) + o;
             if o == 0 && l == 0 { (res matches Ok(None)) }
-            else if l == 0 { (res matches Err(Error::InvalidRamBundleEntry)) }
+            else if l == 0 { res is Err }
             else if at < s.len() && at + (l - 1) <= s.len() { (res matches Ok(Some(m)) && m.id == id && m.data@ == s.subrange(at, at + (l - 1))) }
             else { res is Err } }))
 }
